@@ -1004,6 +1004,21 @@ Fixpoint violations_from (cs : list ccase) (i : nat) : list nat :=
 
 Definition violations (cs : list ccase) : list nat := violations_from cs 0.
 
+(* --- the model's own behaviour written as observations: what the judge above sees when the implementation
+   behaves exactly like the model (used to state that the judge accepts the model on EVERY sequence) *)
+Definition obs_of (r : container * outcome) : obs :=
+  {| o_out := snd r; o_state := c_content (fst r); o_shape := pub_shape (fst r); o_dtype := pub_dtype (fst r) |}.
+
+Fixpoint model_obs (tb : tables) (c : container) (ops : list op) : list obs :=
+  match ops with
+  | [] => []
+  | o :: t => let r := step tb c o in obs_of r :: model_obs tb (fst r) t
+  end.
+
+(* the containers a sequence compares with are containers the invariant describes *)
+Definition eq_operands_inv (ops : list op) : bool :=
+  forallb (fun o => match o with OEq o' | OEqRev o' => inv_b o' | _ => true end) ops.
+
 (* ------------------------------------------------------------------------------------------ literals
    compact constructors used by the harness-written case files *)
 
